@@ -30,7 +30,7 @@ fn jobs(plan: &Plan) -> Vec<Job> {
     let t = plan.tier;
     let mut v = entry_jobs(plan, "C16", "roundtrip", t.pick(60, 600, 1), eligible);
     v.extend(stack_jobs(plan, "C16", "stack-roundtrip", t.pick(16, 150, 0), eligible));
-    for h in 0..t.pick(300, 1500, 1) {
+    for h in 0..t.pick(300, 20000, 1) {
         v.push(standalone("index-containers", "bare", h, bare));
     }
     v
